@@ -78,17 +78,19 @@ def make_ds(client, k, sop, size):
     return ds
 
 
-def client_thread(i, remote, barrier, nstores, abort_after, results, rnd):
+def client_thread(i, remote, barrier, nstores, abort_after, results, rnd, shared_ae=None):
     client = 'C%02d' % i
-    ts = TSS[i % 3]
-    classes = [CT, MR] if i % 2 == 0 else [MR, CT]        # the same context ids mean different classes
+    ts = TSS[i % 3] if shared_ae is None else TSS[0]
+    classes = ([CT, MR] if i % 2 == 0 else [MR, CT]) if shared_ae is None else [CT, MR]   # the same context ids mean different classes
     cl = ae_mod.ClientAE(client, supported_ts=[ts], max_pdu_length=[256, 1024, 16384, 65536][i % 4]).add_scu(sc.storage_scu, classes)
     cl.timeout = 60
     rec = {'client': client, 'aborted': abort_after is not None, 'error': '', 'negotiated': [], 'requests': []}
     mids = []
     results[i] = (rec, mids)
+    for _ in range(i * 7):                 # the per-thread counters of different threads are at different values
+        mids.append(pynetdicom2._new_msg_id())
     try:
-        with cl.request_association(remote) as assoc:
+        with (shared_ae or cl).request_association(remote) as assoc:
             rec['negotiated'] = [{'ctx': v[0], 'ts': str(v[1]), 'as': str(k)} for k, v in assoc.sop_classes_as_scu.items()]
             captured = {}
             orig_receive = assoc.receive
@@ -96,6 +98,7 @@ def client_thread(i, remote, barrier, nstores, abort_after, results, rnd):
             def receive():
                 m, pc = orig_receive()
                 captured['rmid'] = m.message_id_being_responded_to
+                captured['rinst'] = str(getattr(m, 'affected_sop_instance_uid', ''))
                 captured['pc'] = pc
                 return m, pc
             assoc.receive = receive
@@ -110,7 +113,7 @@ def client_thread(i, remote, barrier, nstores, abort_after, results, rnd):
                 mid = pynetdicom2._new_msg_id()
                 mids.append(mid)
                 rq = {'ctx': assoc.sop_classes_as_scu[sop][0], 'mid': mid, 'sentD': tok(data), 'sentInst': str(ds.SOPInstanceUID),
-                      'gotD': 0, 'gotInst': '', 'gotClient': '', 'servedTs': '', 'rmid': -1, 'status': -1,
+                      'gotD': 0, 'gotInst': '', 'gotClient': '', 'servedTs': '', 'rmid': -1, 'rinst': '', 'status': -1,
                       'expectStatus': 0xB000 if (rnd * 100 + k) % 2 else 0, 'answered': False}
                 rec['requests'].append(rq)
                 if abort_after is not None and k == abort_after:
@@ -118,7 +121,11 @@ def client_thread(i, remote, barrier, nstores, abort_after, results, rnd):
                 st = assoc.get_scu(sop)(ds, mid)
                 rq['status'] = int(st)
                 rq['rmid'] = captured.get('rmid', -1)
+                rq['rinst'] = captured.get('rinst', '')
                 rq['answered'] = True
+                if shared_ae is not None and k == i % nstores:
+                    import time
+                    time.sleep(0.05 * (i % 3))      # staggered, non-LIFO exits of associations of ONE requesting entity
     except RuntimeError:
         pass
     except Exception as exc:      # noqa
@@ -141,13 +148,13 @@ def find_thread(i, remote, results):
             npend = len([1 for ds, st in got if st.is_pending])
             rec['requests'].append({'ctx': 1, 'mid': rep, 'sentD': tok(client.encode()), 'sentInst': client, 'gotD': tok(client.encode()) if owners == {client} else 1,
                                     'gotInst': client if npend == 2 and len(got) == 3 else 'count-%d-%d' % (npend, len(got)),
-                                    'gotClient': client if owners == {client} else ','.join(sorted(owners)), 'servedTs': 'any', 'rmid': rep,
+                                    'gotClient': client if owners == {client} else ','.join(sorted(owners)), 'servedTs': 'any', 'rmid': rep, 'rinst': client,
                                     'status': int(got[-1][1]) if got else -1, 'expectStatus': 0, 'answered': bool(got)})
     except Exception as exc:      # noqa
         rec['error'] = '%s: %s' % (type(exc).__name__, exc)
 
 
-def one_round(n, rnd, rng, tcp):
+def one_round(n, rnd, rng, tcp, shared=False):
     srv = Server(bind=tcp)
     srv.add_scp(sc.storage_scp).add_scp(sc.verification_scp).add_scp(sc.qr_find_scp)
     results = {}
@@ -155,11 +162,17 @@ def one_round(n, rnd, rng, tcp):
     barrier = threading.Barrier(n)
     aborters = set(rng.sample(range(n), max(1, n // 4)))
 
+    shared_ae = None
+    if shared:
+        # ONE entity requesting several associations at once, from several threads
+        shared_ae = ae_mod.ClientAE('C00', supported_ts=[TSS[0]], max_pdu_length=4096).add_scu(sc.storage_scu, [CT, MR])
+        shared_ae.timeout = 60
+
     def run(remote):
         ths = []
         for i in range(n):
             ab = rng.choice([0, 1]) if i in aborters else None
-            ths.append(threading.Thread(target=client_thread, args=(i, remote, barrier, 3, ab, results, rnd), daemon=True))
+            ths.append(threading.Thread(target=client_thread, args=(i, remote, barrier, 3, ab, results, rnd, shared_ae), daemon=True))
         for i in range(nfind):
             ths.append(threading.Thread(target=find_thread, args=(100 + i, remote, results), daemon=True))
         for t in ths:
@@ -203,13 +216,14 @@ def main(tier='quick'):
     rng = random.Random(seed())
     mcs = []
     own = tlc.run('MultiAssocDefs', 'MultiAssoc_own.cfg', workers=4)
-    shared = tlc.run('MultiAssocDefs', 'MultiAssoc_shared.cfg', workers=4)
-    if not own.ok or 'OwnAssociationOwnData' not in shared.violated:
+    shared_mc = tlc.run('MultiAssocDefs', 'MultiAssoc_shared.cfg', workers=4)
+    if not own.ok or 'OwnAssociationOwnData' not in shared_mc.violated:
         raise Machinery('MultiAssoc.tla: expected isolation to hold with own tables and fail with a shared one')
-    plan = [(8, False), (8, True)] if tier == 'quick' else [(16, False)] * 6 + [(32, False)] * 2 + [(16, True)] * 4 + [(48, True)]
+    plan = [(8, False, False), (8, True, False), (6, False, True)] if tier == 'quick' else \
+        [(16, False, False)] * 6 + [(32, False, False)] * 2 + [(16, True, False)] * 4 + [(48, True, False)] + [(8, False, True)] * 4 + [(8, True, True)] * 2
     cases = []
-    for rnd, (n, tcp) in enumerate(plan):
-        cs, finished = one_round(n, rnd, rng, tcp)
+    for rnd, (n, tcp, shared) in enumerate(plan):
+        cs, finished = one_round(n, rnd, rng, tcp, shared)
         if not finished:
             v.report({'site': 'whole-stack', 'clause': 'round-did-not-finish'}, 'a client thread did not finish within 180 s (round %d, %d clients, tcp=%s)' % (rnd, n, tcp))
         for c in cs:
@@ -223,8 +237,8 @@ def main(tier='quick'):
             what = c['a'] if c['kind'] == 'assoc' else {k: (x if k == 'threads' else len(x)) for k, x in c['g'].items()}
             v.report({'site': 'whole-stack', 'clause': clause}, '%s (round %d): %s' % (clause, c['round'], str(what)[:700]), replay={'round': c['round']})
     ev = {'tier': tier, 'level': 'model_checking',
-          'coverage': {'states': own.distinct + shared.distinct, 'transitions': own.generated + shared.generated,
-                       'traces_validated_against_impl': len(cases), 'rounds': len(plan), 'clients_per_round': [n for n, _ in plan],
+          'coverage': {'states': own.distinct + shared_mc.distinct, 'transitions': own.generated + shared_mc.generated,
+                       'traces_validated_against_impl': len(cases), 'rounds': len(plan), 'clients_per_round': [p[0] for p in plan], 'rounds_with_one_shared_requesting_entity': len([p for p in plan if p[2]]),
                        'associations_observed': len([c for c in cases if c['kind'] == 'assoc']),
                        'samples': [cases[0]], 'exhaustive': False},
           'assumptions': ['real threads: the OS chooses the interleavings; a barrier guarantees that all associations of a round overlap',
